@@ -115,6 +115,7 @@ def check_c19(run: Run, prog: Program) -> None:
     n6 = dunder.rule_V1(run, prog)
     dunder.rule_V4(run, prog)
     dunder.rule_V1b(run, prog)
+    run.floor("E2.S4", dunder.rule_S4(run, prog), 2)
     run.floor("super() call sites", n1, 30)
     run.floor("operator presence obligations", n3, 50)
     if not any(o.rule == "E3.T" and o.verdict == UNDECIDED for o in run.obligations):
@@ -192,6 +193,7 @@ def check_c06(run: Run, prog: Program) -> None:
         "inverse, powers, identity (numeric) - a wrong matrix product order is invisible to this check."
     )
     n4 = kinds.rule_K4(run, prog)
+    kinds.rule_K4m(run, prog)
     n3 = kinds.rule_K3(run, prog, family=prog.cls("TransformationTensor"))
     run.floor("__apply__ implementations and derived caches", n4, 6)
     run.stats.update({"apply_obligations": n4, "reconstruction_obligations": n3})
@@ -333,6 +335,7 @@ def check_c07(run: Run, prog: Program) -> None:
     n3 = variance.rule_V3(run, prog)
     from geolint import kinds
 
+    kinds.rule_K4m(run, prog)
     kinds.rule_K4(run, prog)  # derived caches (supporting line/plane, memoised duals) must move with the object
     variance.rule_kind_guards(run, prog)
     run.floor("constructor chains analysed", n2, 15)
@@ -353,7 +356,8 @@ def check_c08(run: Run, prog: Program) -> None:
         "decides ONE clause: wherever a map is conjugated by a translation (reflection about a mirror that does not pass through the "
         "origin, and the two other users of the idiom), the outer factors are a translation and its inverse; plus a necessary condition "
         "of the affine embedding: the dtype of every matrix assembled by item assignment depends on all operands stored into it (no silent "
-        "truncation of a fractional offset next to an integer matrix). Everything numeric (Rodrigues formula, frames, conic map) is NOT decided."
+        "truncation of a fractional offset next to an integer matrix); and the constructors write into no process-wide object (module constant, "
+        "class cache, result of a memoised function), so a later constructor call cannot change an earlier result. Everything numeric (Rodrigues formula, frames, conic map) is NOT decided."
     )
     prog.func("reflection")
     prog.func("translation")
@@ -364,6 +368,16 @@ def check_c08(run: Run, prog: Program) -> None:
     # affine embedding: the matrix assembled by affine_transform (and every other buffer assembled by item assignment) can hold all its operands
     run.stats["assembled_buffers"] = kinds.rule_K7(run, prog)
     prog.func("affine_transform")
+    # a constructor never writes into process-wide state (module constants, class caches, objects handed out by memoised functions):
+    # otherwise the NEXT constructor call changes what an earlier result maps points to
+    from geolint import purity
+
+    ctors = {"translation", "rotation", "scaling", "reflection", "affine_transform", "identity",
+             "Transformation.from_points", "Transformation.from_points_and_conics"}
+    present = {f.short for f in prog.package_functions()} & ctors
+    if len(present) < 6:
+        run.error(f"transformation constructors not found: {sorted(ctors - present)}")
+    run.stats["constructor_write_constructs"] = purity.rule_purity(run, prog, only_entries=ctors, shared_only=True)
     refl = prog.func("reflection")
     in_refl = [o for o in run.obligations if o.rule == "E8" and o.construct == refl.short]
     if not in_refl:
